@@ -1,3 +1,4 @@
+import json
 """Rules added after the independent seeded changes showed which structural necessary conditions the
 first set missed (DESIGN §8).  Each is a condition whose violation breaks behaviour; none matches text."""
 from oracle import defs as D
@@ -638,7 +639,7 @@ def rule_ok_requires_digits(col, facts):
                         bad_alt = alt
                 col.check(R, "%s:ok#%d" % (name, n), bad_alt is None,
                           "an Ok(..) result is returned on a path that neither found the format not to require digits nor a non-zero digit count (last conditions: %s)" % ([(show(e)[:50], p) for _d, e, p in (bad_alt or [])][-3:]), f.loc(st[3]))
-        col.floor(R, "Ok sites in %s" % name, n, 3)
+        col.floor(R, "Ok sites in %s" % name, n, 2)   # the empty-after-sign exit and the final one (the lone-zero exit went with F36)
 
 
 # ---------------------------------------------------------------------------------------------
@@ -1073,6 +1074,45 @@ def rule_grammar_guards(col, facts):
                 where = f.loc(f.blocks[bb]["s"][j][3]) if j >= 0 else f.loc(f.blocks[bb]["ts"])
         col.check(R, "%s:start_index:moves-only-over-prefix" % last_seg(fname), badm == 0,
                   "%d of %d adjustments of `start_index` happen without a base prefix having been read (leading zeros are digits): with a prefix and a suffix in the format `0h` is rejected while `1h` is accepted" % (badm, moves), where)
+
+    # (g) a byte that is not a digit may be the base suffix: every place where the integer parser gives up on a
+    #     non-digit byte (InvalidDigit, or the partial parser's Ok at that byte) must come after the base-suffix
+    #     test - i.e. be dominated by a block that reads NumberFormat::BASE_SUFFIX.  The lone-zero exit of
+    #     no_integer_leading_zeros returned straight away: `0h` was rejected while `1h` and `10h` are accepted.
+    for fname in ("lexical_parse_integer::algorithm::algorithm_complete", "lexical_parse_integer::algorithm::algorithm_partial"):
+        f = facts.fn(fname)
+        readers = set()
+        for i, b in enumerate(f.blocks):
+            if not f.live(i):
+                continue
+            for st in b["s"]:
+                if st[0] == "=" and "BASE_SUFFIX" in json.dumps(st[2]):
+                    readers.add(i)
+        col.check(R, "%s:base-suffix:read" % last_seg(fname), bool(readers), "NumberFormat::BASE_SUFFIX is never read", f.loc())
+        sites = [(bb, sp) for bb, v, sp in error_sites(f) if v == "InvalidDigit"]
+        nb = 0
+        where = f.loc()
+        for bb, sp in sites:
+            if not any(f.dominates(r, bb) for r in readers):
+                nb += 1
+                where = f.loc(sp)
+        if last_seg(fname) == "algorithm_partial":
+            # the partial parser's counterpart of InvalidDigit: an Ok whose count is `index - 1` (stopped at a byte)
+            for i, b in enumerate(f.blocks):
+                if not f.live(i):
+                    continue
+                for st in b["s"]:
+                    if st[0] == "=" and st[1] == [0, []] and st[2][0] == "agg" and st[2][1][0] == "adt" and st[2][1][3] == "Ok":
+                        tup = strip_casts(rvalue_expr(f, st[2], 0)[2][0])
+                        if tup[0] == "agg" and len(tup[2]) == 2:
+                            idx = strip_casts(tup[2][1])
+                            if idx[0] == "bin" and idx[1] == "Sub" and strip_casts(idx[3]) == ("k", 1):
+                                sites.append((i, st[3]))
+                                if not any(f.dominates(r, i) for r in readers):
+                                    nb += 1
+                                    where = f.loc(st[3])
+        col.check(R, "%s:invalid-digit-after-suffix-test" % last_seg(fname), nb == 0 and bool(sites),
+                  "%d of %d exits at a byte that is not a digit are taken without the byte having been compared with the base suffix: e.g. after a lone zero under no_integer_leading_zeros `0h` is rejected although `1h` is accepted" % (nb, len(sites)), where)
 
 
 # ---------------------------------------------------------------------------------------------
